@@ -9,35 +9,27 @@ import (
 
 	"github.com/XiaoMi/Gaea/parser/ast"
 	"github.com/XiaoMi/Gaea/parser/format"
-	"github.com/XiaoMi/Gaea/parser/model"
-	driver "github.com/XiaoMi/Gaea/parser/tidb-types/parser_driver"
 
-	"verifharness/internal/shardsim"
 	"verifharness/internal/sqlmodel"
 )
 
-// Known findings of C02 (findings.d/C02.json). A failing case is classified
-// as finding F only if
+// Open findings of C02 (findings.d/C02.json). Only OPEN findings have a
+// classifier: a failing case is classified as finding F only if
 //
 //	(a) F's trigger is present in the case (a predicate over statement, plan
 //	    and data that pins F's root cause), and
-//	(b) the case with F's trigger neutralised - an equivalent or minimally
-//	    changed case that does not exercise the root cause - is answered
-//	    correctly by Gaea (the differential is re-run on it).
+//	(b) the case with only F's trigger neutralised - a minimally changed case
+//	    that does not exercise the root cause - is answered correctly by Gaea
+//	    (the differential is re-run on it).
 //
-// When several triggers are present and no single neutralisation repairs the
-// answer, all of them are neutralised together; the failure is then booked
-// under the first trigger. A failure that survives every applicable
-// neutralisation is reported as a violation.
+// A failure that survives the neutralisation of the open findings' triggers
+// is a violation. Findings that were repaired in /repo (C02-F1 positions,
+// F2 map key, F3 DISTINCT aggregates, F4 ORDER BY aggregate, F6 aggregate on
+// an empty route, F7/F8 inherited routing) have no classifier any more: their
+// witnesses are expect-pass regression cases and a recurrence is a plain
+// violation.
 const (
-	fPosition    = "C02-F1" // GROUP BY / ORDER BY <position> sent to the shards as an integer constant
-	fMapKey      = "C02-F2" // generateMapKey: NULL vs 'NULL', '+' inside values
-	fDistinctAgg = "C02-F3" // COUNT(DISTINCT)/SUM(DISTINCT) merged by addition
-	fOrderAgg    = "C02-F4" // ORDER BY <aggregate expression>: helper column is not merged
-	fGroupLimit  = "C02-F5" // GROUP BY with LIMIT: LIMIT pushed to every shard cuts partial groups
-	fEmptyAgg    = "C02-F6" // aggregate without GROUP BY on an empty route: no row instead of one
-	fRouteLT     = "C02-F7" // calendar rule: k < bound / NOT BETWEEN drops the bound's own period (C01)
-	fRouteNotBtw = "C02-F8" // NOT BETWEEN lo AND hi with lo > hi drops the tables between the bounds (C01)
+	fGroupLimit = "C02-F5" // GROUP BY with LIMIT: LIMIT pushed to every shard cuts partial groups
 )
 
 type neutraliser struct {
@@ -65,16 +57,6 @@ func selectsOf(st ast.StmtNode) []*ast.SelectStmt {
 	return nil
 }
 
-func colRef(name string) *ast.ColumnNameExpr {
-	return &ast.ColumnNameExpr{Name: &ast.ColumnName{Name: model.NewCIStr(name)}}
-}
-
-func exprText(x ast.Node) string {
-	var sb strings.Builder
-	x.Restore(format.NewRestoreCtx(format.DefaultRestoreFlags, &sb))
-	return sb.String()
-}
-
 // rewrite parses the statement, lets f edit it and restores it.
 func rewrite(sql string, f func(st ast.StmtNode) bool) (string, bool) {
 	st, err := sqlmodel.Parse(sql)
@@ -86,196 +68,6 @@ func rewrite(sql string, f func(st ast.StmtNode) bool) (string, bool) {
 	}
 	out := restoreSQL(st)
 	return out, out != ""
-}
-
-// neutralisePositions replaces GROUP BY / ORDER BY positions by a reference to
-// the select item they denote (its column or an alias given to it).
-func neutralisePositions(c c02Case, ev evaluation) (c02Case, bool) {
-	if len(ev.w.Trace) < 2 {
-		return c, false
-	}
-	sql, ok := rewrite(c.SQL, func(st ast.StmtNode) bool {
-		changed := false
-		for _, s := range selectsOf(st) {
-			fix := func(items []*ast.ByItem) {
-				for _, it := range items {
-					p, ok := it.Expr.(*ast.PositionExpr)
-					if !ok || p.N < 1 || p.N > len(s.Fields.Fields) {
-						continue
-					}
-					fl := s.Fields.Fields[p.N-1]
-					if fl.WildCard != nil {
-						continue
-					}
-					if cn, isCol := fl.Expr.(*ast.ColumnNameExpr); isCol && fl.AsName.O == "" {
-						cp := *cn.Name
-						it.Expr = &ast.ColumnNameExpr{Name: &cp}
-					} else {
-						if fl.AsName.O == "" {
-							fl.AsName = model.NewCIStr(fmt.Sprintf("zp%d", p.N))
-						}
-						it.Expr = colRef(fl.AsName.O)
-					}
-					changed = true
-				}
-			}
-			if s.GroupBy != nil {
-				fix(s.GroupBy.Items)
-			}
-			if s.OrderBy != nil {
-				fix(s.OrderBy.Items)
-			}
-		}
-		return changed
-	})
-	if !ok {
-		return c, false
-	}
-	c.SQL = sql
-	return c, true
-}
-
-// neutraliseOrderAgg makes every ORDER BY <aggregate expression> refer to a
-// select item by alias (adding the aggregate as a trailing item when the
-// select list does not have it; both sides then return that extra column).
-func neutraliseOrderAgg(c c02Case, ev evaluation) (c02Case, bool) {
-	if len(ev.w.Trace) < 2 {
-		return c, false
-	}
-	sql, ok := rewrite(c.SQL, func(st ast.StmtNode) bool {
-		changed := false
-		for _, s := range selectsOf(st) {
-			if s.OrderBy == nil {
-				continue
-			}
-			for k, it := range s.OrderBy.Items {
-				if _, isAgg := it.Expr.(*ast.AggregateFuncExpr); !isAgg {
-					continue
-				}
-				txt := exprText(it.Expr)
-				var target *ast.SelectField
-				for _, fl := range s.Fields.Fields {
-					if fl.Expr != nil && exprText(fl.Expr) == txt {
-						target = fl
-						break
-					}
-				}
-				if target == nil {
-					if s.Distinct {
-						continue
-					}
-					target = &ast.SelectField{Expr: it.Expr}
-					s.Fields.Fields = append(s.Fields.Fields, target)
-				}
-				if target.AsName.O == "" {
-					target.AsName = model.NewCIStr(fmt.Sprintf("zo%d", k+1))
-				}
-				it.Expr = colRef(target.AsName.O)
-				changed = true
-			}
-		}
-		return changed
-	})
-	if !ok {
-		return c, false
-	}
-	c.SQL = sql
-	return c, true
-}
-
-// neutraliseDistinctAgg drops DISTINCT inside COUNT / SUM.
-func neutraliseDistinctAgg(c c02Case, ev evaluation) (c02Case, bool) {
-	if len(ev.w.Trace) < 2 {
-		return c, false
-	}
-	sql, ok := rewrite(c.SQL, func(st ast.StmtNode) bool {
-		changed := false
-		for _, s := range selectsOf(st) {
-			visit := func(x ast.ExprNode) {
-				if a, ok := x.(*ast.AggregateFuncExpr); ok && a.Distinct {
-					a.Distinct = false
-					changed = true
-				}
-			}
-			for _, fl := range s.Fields.Fields {
-				if fl.Expr != nil {
-					visit(fl.Expr)
-				}
-			}
-			if s.OrderBy != nil {
-				for _, it := range s.OrderBy.Items {
-					visit(it.Expr)
-				}
-			}
-		}
-		return changed
-	})
-	if !ok {
-		return c, false
-	}
-	c.SQL = sql
-	return c, true
-}
-
-func deMapKey(s string) string {
-	if s == "NULL" {
-		return "NUL_"
-	}
-	return strings.ReplaceAll(s, "+", "_")
-}
-
-// neutraliseMapKey removes the two ingredients of a key-encoding collision
-// from the data and from the statement's string literals: the string 'NULL'
-// and the separator character '+'.
-func neutraliseMapKey(c c02Case, ev evaluation) (c02Case, bool) {
-	f := ev.feat
-	if !(f.group || f.distinct || f.union) {
-		return c, false
-	}
-	changed := false
-	d := c.Data
-	d.T = append([]shardsim.Row(nil), d.T...)
-	for i := range d.T {
-		if d.T[i].S != nil {
-			if n := deMapKey(*d.T[i].S); n != *d.T[i].S {
-				d.T[i].S = &n
-				changed = true
-			}
-		}
-	}
-	d.TC = append([]shardsim.ChildRow(nil), d.TC...)
-	for i := range d.TC {
-		if d.TC[i].W != nil {
-			if n := deMapKey(*d.TC[i].W); n != *d.TC[i].W {
-				d.TC[i].W = &n
-				changed = true
-			}
-		}
-	}
-	if !changed {
-		return c, false
-	}
-	sql, ok := rewrite(c.SQL, func(st ast.StmtNode) bool {
-		st.Accept(&literalRewriter{})
-		return true
-	})
-	if !ok {
-		return c, false
-	}
-	c.Data, c.SQL = d, sql
-	return c, true
-}
-
-type literalRewriter struct{}
-
-func (literalRewriter) Enter(n ast.Node) (ast.Node, bool) { return n, false }
-func (literalRewriter) Leave(n ast.Node) (ast.Node, bool) {
-	if v, ok := n.(*driver.ValueExpr); ok && v.Kind() == 5 /* KindString */ {
-		if s := v.GetString(); deMapKey(s) != s {
-			v.SetString(deMapKey(s))
-		}
-	}
-	return n, true
 }
 
 // neutraliseGroupLimit removes LIMIT from GROUP BY selects, provided the
@@ -309,51 +101,13 @@ func neutraliseGroupLimit(c c02Case, ev evaluation) (c02Case, bool) {
 	return c, true
 }
 
-// neutraliseRouteLT / neutraliseRouteNotBetween: the two routing defects
-// inherited from C01 (see shardsim/routeclass.go): the tables the defect drops
-// for this statement, when they were in fact not routed, are emptied.
-func neutraliseRouteLT(c c02Case, ev evaluation) (c02Case, bool) {
-	drop := ev.w.DroppedLT(ev.st)
-	if len(drop) == 0 {
-		return c, false
-	}
-	d, changed := ev.w.DropRows(c.Data, drop)
-	c.Data = d
-	return c, changed
-}
-
-func neutraliseRouteNotBetween(c c02Case, ev evaluation) (c02Case, bool) {
-	drop := ev.w.DroppedNB(ev.st)
-	if len(drop) == 0 {
-		return c, false
-	}
-	d, changed := ev.w.DropRows(c.Data, drop)
-	c.Data = d
-	return c, changed
-}
-
 var neutralisers = []neutraliser{
-	{fPosition, "positional GROUP BY / ORDER BY item", neutralisePositions},
-	{fOrderAgg, "ORDER BY aggregate expression", neutraliseOrderAgg},
-	{fDistinctAgg, "DISTINCT aggregate over several shards", neutraliseDistinctAgg},
-	{fMapKey, "group / distinct key encoding collision", neutraliseMapKey},
 	{fGroupLimit, "GROUP BY with LIMIT pushed to the shards", neutraliseGroupLimit},
-	{fRouteLT, "calendar rule drops the bound's own period", neutraliseRouteLT},
-	{fRouteNotBtw, "NOT BETWEEN with descending bounds drops tables", neutraliseRouteNotBetween},
 }
 
 func passes(c c02Case) bool {
 	ev := evaluate(c)
 	return ev.skip == "" && (ev.rejected != "" || ev.class == vOK)
-}
-
-// emptyRouteAggregate is finding F6's direct predicate: an aggregate query
-// without GROUP BY whose route is empty (no statement reached any backend)
-// answers with no row where a database answers with exactly one.
-func emptyRouteAggregate(ev evaluation) bool {
-	sel, ok := ev.st.(*ast.SelectStmt)
-	return ok && ev.feat.agg && sel.GroupBy == nil && len(ev.w.Trace) == 0 &&
-		ev.class == vRowCount && len(ev.got) == 0 && len(ev.ref.PreLimit) == 1
 }
 
 // disabled reports whether a finding's classifier is switched off
@@ -364,51 +118,12 @@ func disabled(id string) bool {
 }
 
 func classifySelect(c c02Case, ev evaluation) (string, string) {
-	if !disabled(fEmptyAgg) && emptyRouteAggregate(ev) {
-		return fEmptyAgg, "aggregate without GROUP BY on an empty route"
-	}
-	type applied struct {
-		n neutraliser
-		c c02Case
-	}
-	var trig []applied
 	for _, n := range neutralisers {
 		if disabled(n.id) {
 			continue
 		}
-		if nc, ok := n.apply(c, ev); ok {
-			if passes(nc) {
-				return n.id, n.what
-			}
-			trig = append(trig, applied{n, nc})
-		}
-	}
-	if len(trig) < 2 {
-		return "", ""
-	}
-	// several triggers: neutralise them one after the other
-	cur, cev := c, ev
-	var ids []string
-	for _, n := range neutralisers {
-		if disabled(n.id) {
-			continue
-		}
-		nc, ok := n.apply(cur, cev)
-		if !ok {
-			continue
-		}
-		cur = nc
-		ids = append(ids, n.id)
-		cev = evaluate(cur)
-		if cev.skip != "" {
-			return "", ""
-		}
-		if cev.rejected != "" || cev.class == vOK {
-			return ids[0], "combination of " + strings.Join(ids, "+")
-		}
-		if !disabled(fEmptyAgg) && emptyRouteAggregate(cev) {
-			ids = append(ids, fEmptyAgg)
-			return ids[0], "combination of " + strings.Join(ids, "+")
+		if nc, ok := n.apply(c, ev); ok && passes(nc) {
+			return n.id, n.what
 		}
 	}
 	return "", ""
